@@ -156,7 +156,7 @@ def family(prop, tier, params=None, cfg=None, **kw):
 
     quick    : the sub-grammar, every schedule with <= 1 deviation
     thorough : two exhaustive passes -- (a) the sub-grammar plus an external dispatcher racing with everything, every schedule with
-               <= 2 deviations; (b) the full grammar, every schedule with <= 1 deviation (the full grammar at 2 deviations is
+               <= 2 deviations; (b) the full grammar (crossed with the first time-out value only), every schedule with <= 1 deviation (the full grammar at 2 deviations is
                ~2 * 10^6 executions per property and did not finish in 90 minutes on this machine; DESIGN.md section 10)
     """
     kw.pop('racing', None)
@@ -168,8 +168,11 @@ def family(prop, tier, params=None, cfg=None, **kw):
     out = []
     for tag, grammar, racing, base in passes:
         base = dict(base)
+        kw2 = dict(kw)
+        if tag == 'genF' and len(kw.get('timeouts', ())) > 1:
+            kw2['timeouts'] = tuple(kw['timeouts'][:1])  # the full grammar is crossed with the first time-out value only (the others stay in pass (a)): 57 k scenarios instead of 114-170 k
         base.update({k: v for k, v in (cfg or {}).items() if k not in ('bound', 'cap')})
-        for sid, scn, meta in scenarios(grammar, racing=racing, **kw):
+        for sid, scn, meta in scenarios(grammar, racing=racing, **kw2):
             p = dict(params or {})
             p.update(gen=meta)
             out.append(dict(prop=prop, family=f'{prop.lower()}.generated' + ('_full' if tag == 'genF' else ''), id=f'{prop.lower()}.{tag}/{sid}', cfg=base, params=p, scn=scn))
